@@ -528,6 +528,32 @@ def sibling_rules(prog, chk, pid):
         chk.require(ok, P("infinity-mapping"), fi.qualname, "if not Y3 or not Z3: return INFINITY", "%s:%d" % (fi.file, fi.lineno), "a result with Y3 = 0 or Z3 = 0 (the library's encoding of infinity) is returned as INFINITY before a point object is built", "results with Y3 = 0 or Z3 = 0 are not mapped to INFINITY")
 
 
+def _raises_unless_all_equal(g) -> bool:
+    """the guard's raising condition, read as a predicate of the (three) curve objects it compares, is true exactly when they are not all equal: evaluated
+    for every assignment of two distinct identities to the compared terms (a chained `a != b != c` only says that neighbours differ: it lets a = c != b... and
+    a != b = c through)"""
+    from itertools import product
+
+    from bfsa.evalterm import NoEval, eval_term
+
+    cond, pol = g.d["cond"], bool(g.d["pol"])
+    leaves = []
+    for t in subterms(unsnap(cond)):
+        if t.op == "attr" and t.args[1] == "curve" and all(t is not x for x in leaves):
+            leaves.append(t)
+    if not (2 <= len(leaves) <= 4):
+        return False
+    try:
+        for vals in product((1, 2), repeat=len(leaves)):
+            env = {t.uid: v for t, v in zip(leaves, vals)}
+            raised = bool(eval_term(cond, env)) == pol
+            if raised != (len(set(vals)) > 1):
+                return False
+    except (NoEval, TypeError):
+        return False
+    return True
+
+
 def ecdh_rules(prog, chk, pid):
     P = lambda s: "%s.%s" % (pid, s)
     fi = prog.method(E + "ecdh.ECDH", "_get_shared_secret")
@@ -544,7 +570,7 @@ def ecdh_rules(prog, chk, pid):
             kinds.add("private")
         if exc.endswith("NoKeyError") and "public_key" in txt and "private_key" not in txt:
             kinds.add("public")
-        if exc.endswith("InvalidCurveError") and txt.count("curve") >= 3:
+        if exc.endswith("InvalidCurveError") and txt.count("curve") >= 3 and _raises_unless_all_equal(g):
             kinds.add("curves")
         if exc.endswith("InvalidSharedSecretError") and "INFINITY" in txt:
             kinds.add("infinity")
